@@ -462,7 +462,7 @@ def step (cfg : Cfg) (s : St) : Ev → St
   | .run t => if runnable s t then stepRun cfg s t else s
   | .callClose u =>
       if s.status (.U u) != .absent then s      -- every user call runs in a fresh task
-      else enterClose cfg (s.setStatus (.U u) .ready) (.U u) (.userTail u .ok)
+      else enterClose cfg ((s.setStatus (.U u) .ready).setProg (.U u) .idle) (.U u) (.userTail u .ok)
   | .callInitiateClose => s.initiateClose
   | .callLogout => ({ (s.emit (.write .logout)) with pingL := true }).initiateClose
   | .callRecv u => if s.status (.U u) != .absent then s else startRecv s u false
